@@ -104,4 +104,9 @@ where
         self.factors.refactor().unwrap();
         self.factors.Dinv.is_finite()
     }
+
+    #[cfg(clarabel_verif)]
+    fn verif_internal_copy(&self) -> Option<(Vec<T>, Vec<usize>)> {
+        Some(self.factors.verif_internal_copy())
+    }
 }
